@@ -23,7 +23,7 @@ func (S) Level() string { return "exploration" }
 func (S) Info() scen.Info {
 	return scen.Info{
 		Rule: "unit = one history = one fresh child process executing 8-50 seeded operations (Prototype+build at type and representation level+Unwrap, Wrap+read of both views, Marshal+Unmarshal with dag-cbor / dag-json) over a vocabulary of 22 Go types (incl. optional / nullable struct pointers, lists of nullable structs, a stringprefix union, an int-represented enum, an ordered map of structs, structs whose fields are renamed to each other's names, structs of five optional fields in all 32 presence patterns, map and listpairs representation) (scalars, all integer widths and unsigned, optional / nullable pointers, slices incl. nullable elements, ordered-map struct, keyed and kinded unions, enum, tuple / stringjoin / renamed struct representations, cid / link / node fields, nested structs, types sharing an inferred list name, a struct holding one struct type twice, two packages declaring the same type name), explicit and inferred schemas mixed. Each operation's outcome (panic? error? encoded bytes, abstract values of both views, round-trip equality) must equal the outcome of the same operation run first and alone in another fresh process. " +
-			"distinct_nontrivial counts distinct hash(operation sequence) over histories in which some operation repeats an earlier (type, schema mode) or follows an inferred binding of a type sharing a name or list shape. Later additions: 32 types (a kinded union whose map and list members have absent optional fields, fields bound through custom Int / String / Bytes converters, optional and nullable collection or bytes fields that are present but empty, a stringjoin struct ending in an empty field, unsigned values above the int64 range, two same-named Go types in one struct, Any-valued and nullable-valued ordered maps, lists of lists, a nullable list), prototypes whose Go type is inferred from the schema, integers outside the range of the Go field, both views judged against hand-written expected content per type, nodes of earlier Wraps re-read after every operation.",
+			"distinct_nontrivial counts distinct hash(operation sequence) over histories in which some operation repeats an earlier (type, schema mode) or follows an inferred binding of a type sharing a name or list shape. Later additions: 33 types (a struct of 70 fields, a kinded union whose map and list members have absent optional fields, fields bound through custom Int / String / Bytes converters, optional and nullable collection or bytes fields that are present but empty, a stringjoin struct ending in an empty field, unsigned values above the int64 range, two same-named Go types in one struct, Any-valued and nullable-valued ordered maps, lists of lists, a nullable list), prototypes whose Go type is inferred from the schema, integers outside the range of the Go field, both views judged against hand-written expected content per type, nodes of earlier Wraps re-read after every operation.",
 		DistinctSet: "history",
 		Assumptions: []string{
 			"the reference is the same code in a fresh process (refinement against a reference execution); bindnode itself is not modelled",
